@@ -99,7 +99,8 @@ impl Prop for Accounting {
             if r.after_end.iter().any(|s| *s != want) {
                 return fail(format!("terminal status {want} does not persist: later calls report {:?}", r.after_end));
             }
-            if r.call_log.last().map(|c| c.status) != Some(want) {
+            // the runner records at most 4096 calls; only a complete log ends with the terminal status
+            if r.calls as usize == r.call_log.len() && r.call_log.last().map(|c| c.status) != Some(want) {
                 return fail("last recorded status is not the terminal one".into());
             }
         }
